@@ -130,6 +130,77 @@ CHECKS = {
    note="Trusted: Coq kernel + VM; hand-written device model (the MIDI-input tracker that panic also clears belongs to C17). C13_transparent assumes no other panic source is engaged at that moment. No axioms.",
    technique="Coq proof (exact state round-trip) + twin-history differential correspondence",
    design="§5 C13"),
+
+ "C06": dict(
+   text="Proof: the model's float layer is Flocq's IEEE-754 binary64 (bit-exact with Go: the per-run correspondence compares BYTES of every axis "
+        "event). Theorems: on the finite grid of the property's own quantifier - EVERY raw value of the 8-bit axes [0,255], [-128,127], [-127,127] and a "
+        "hat, 20 deadzones 0..0.99, every flip / deadzone_at_center / {unidirectional CC, bidirectional CC, pitch bend} combination - the kernel "
+        "evaluates (vm_compute, lifted by forallb_forall, bound in the statement) that every transmitted value is within one step (+2^-20 rounding margin) "
+        "of the exact rational transfer function, end stops and rest value are exact, the right controller/side is addressed (C06_grid_value) and the "
+        "value is monotone in the raw position over all pairs (C06_grid_monotone); pitch-bend centre is 8192 (C06_pitch_bend_centre); the original "
+        "reciprocal rescale and truncation are refuted (D9, D10, fixed in /repo). Partial: 16-bit/10-bit ranges and deadzones off the grid are covered "
+        "by the correspondence (edges, deadzone edges, samples; thorough: deadzones k/100), not by a theorem. Tie to /repo: one real Device per "
+        "configuration swept up/down over the axis range; the same monitor function the theorems use runs in coqc on the implementation's bytes.",
+   note="Trusted: Coq kernel + VM; Flocq (axioms of the standard library's Reals via Flocq: ClassicalDedekindReals.sig_forall_dec, sig_not_dec, FunctionalExtensionality.functional_extensionality_dep, Classical_Prop.classic - as printed by Print Assumptions); amd64 float->int conversion and absence of FMA as modelled; hand-written model.",
+   technique="Coq proof by kernel evaluation of a bit-exact Flocq model over the property's finite grid + bit-exact differential correspondence",
+   design="§5 C06"),
+ "C07": dict(
+   text="Proof: Coq theorems over ARBITRARY samples (hence arbitrary float positions, exact centre and direct jumps across the centre): for every "
+        "history of positions of a family of CC axes with pairwise distinct controller numbers and CC-learning presses/releases, after every event at "
+        "most one controller of each bidirectional pair is non-zero at the receiver (C07_at_most_one, C07_invariant); one transmitted event puts the "
+        "value on the side the stick is on, the other side is 0, a non-zero side being left gets an explicit 0 in that very step, nothing else changes "
+        "(C07_side_and_zeroing); while CC-learning is held an event is processed iff beyond half travel and a dropped event changes nothing "
+        "(C07_learning_gate). Tie to /repo: real Device with 1-3 bidirectional axes (signed, unsigned centred), scripts with every ordered pair of "
+        "{far-, half-, near-, centre, near+, half+, far+}, learning toggled; receiver-side CC values reconstructed in coqc from the bytes.",
+   note="Trusted: Coq kernel + VM; Flocq float layer for the run-time comparison only (the theorems are float-free); channel/mapping actions are outside C07's quantifier. No axioms in the theorems.",
+   technique="Coq proof by invariant induction over sample histories + receiver-side differential correspondence",
+   design="§5 C07"),
+ "C08": dict(
+   text="Proof: Coq theorems over ARBITRARY samples: exact output and tracker effect of a key-emulation sample per zone - positive/negative direction "
+        "turned on once with the transposed note on (channel+offset) mod 16 (silent out of range, silent without a configured negative note), released "
+        "with exactly the recorded pair when back below 49 %, nothing between 49 and 50 % (C08_positive, C08_negative, C08_centre, C08_gap, "
+        "C08_pairing, C08_frozen); the two directions of an axis are never on together in ANY reachable state of ANY history (C08_exclusive). "
+        "Tie to /repo: hat and stick axes, signed/unsigned, flipped, with/without negative note, every ordered pair of {Neg, Gap-, Mid, Gap+, Pos}, "
+        "octave/semitone/channel actions interleaved; a spec interpreter built from the theorems' formulas runs in coqc on the implementation's bytes.",
+   note="Trusted: Coq kernel + VM; the zone of a position comes from the Flocq float layer (bit-exact, validated by C06's correspondence); one axis code is assumed not to be key-emulated by two sub-handlers at once. No axioms in the theorems.",
+   technique="Coq proof by case analysis + invariant over all histories; differential correspondence against a spec interpreter",
+   design="§5 C08"),
+ "C09": dict(
+   text="Proof: Coq theorems: the TOML-struct -> Config conversion never crashes for any decoded structure and any name tables (C09_convert_total), "
+        "nor does the hidi.toml conversion (C09_hidi_total, C09_hidi_periods), and with the recover wrapper ParseData / LoadHIDIConfig return a value or an "
+        "error for EVERY decoder outcome including a decoder panic (C09_parse_total, C09_load_hidi_total); the original code is refuted (nil dereference "
+        "on an action axis without action_negative, division by zero on rate 0, escaping decoder panic). The go-toml decoder is an oracle (ok / error / "
+        "panic), not modelled. Tie to /repo: thousands of byte strings (arbitrary, corrupted shipped files, valid TOML with ill-typed / missing / "
+        "duplicated fields, near-valid configs) through the real ParseData and LoadHIDIConfig under recover and a watchdog; any panic or hang is a "
+        "failing input; the decoder's own outcome is fed to the model and outcome classes compared in coqc.",
+   note="Trusted: Coq kernel + VM; the decoder terminates and its panics are recoverable ones (assumed, exercised); hand-written converter model. No axioms.",
+   technique="Coq totality proof over an explicit Ok/Err/Crash outcome type + large differential/fuzz correspondence",
+   design="§5 C09"),
+ "C10": dict(
+   text="Proof: Coq theorems over every decoded TOML structure and every name table: an accepted configuration reflects the file field by field, with "
+        "`reflects` written independently of the converter (C10_sound); all values are in their MIDI ranges (C10_ranges); every invalidity class of the "
+        "property is rejected (C10_rejects) and everything else is accepted (C10_complete); the default mapping is the last of that name "
+        "(C10_default_is_last); refuted witnesses for the unfixed parser (default channel, action_negative, note_negative/offsets). Unknown fields are "
+        "the decoder's DisallowUnknownFields - checked by correspondence only. Tie to /repo: structured description -> own TOML printer -> real ParseData "
+        "-> canonical Config, and the same description -> Coq literal -> convert; field-for-field comparison and monitors in coqc; every single-field "
+        "invalidation must be rejected; evdev name tables and Supported* tables dumped from the linked Go packages every run and compared exhaustively.",
+   note="Trusted: Coq kernel + VM; go-toml decoder as an oracle (faithful on well-typed input, strict on unknown fields: validated by the correspondence); two names of one TOML table never denote the same evdev code. No axioms.",
+   technique="Coq proof of soundness/completeness of the converter against an independent relation + generated differential correspondence",
+   design="§5 C10"),
+ "C15": dict(
+   text="Proof: Coq theorems about labelled transition systems of the relay and the fan-out, over all reachable states (unbounded traces, any number of "
+        "consumers, nondeterministic service order): relay FIFO exactly-once in both directions (C15_relay_fifo, C15_relay_in_fifo); every consumer has "
+        "received/buffered exactly the contiguous, duplicate-free segment of the input stream since its spawn, a leaving consumer a gap-free prefix "
+        "(C15_fanout_segment); spawn/despawn of one consumer never changes another's segment (C15_independent); with the fixed algorithm a pending "
+        "despawn completes without any read by that consumer, with an explicit ranking function (C15_despawn_completes, _progress, _returns); the "
+        "original algorithm deadlocks (C15_despawn_stuck_refuted, 23-step trace; fixed in /repo); the history monitors accept every model execution "
+        "(C15_*_monitor_sound). Partial by nature: Go's scheduler, channels and mutex are modelled; schedules the stress run does not produce are "
+        "covered only by the theorem about the model. Tie to /repo: stress runs of the real DynamicFanOut and ProcessMidiEvents (tagged payloads, "
+        "fast/slow/stopped consumers, spawn/despawn at random moments, GOMAXPROCS 1-16, -race in the thorough tier); recorded histories checked by "
+        "accepts_history in coqc; the despawn-deadlock scenario always runs first.",
+   note="Trusted: Coq kernel + VM; Go channel / sync.Mutex / scheduler semantics as modelled (mutex fairness needed for completion under an endless input stream); hand-written LTS. No axioms.",
+   technique="Coq proof of LTS invariants and a ranking-function liveness argument + history-checking correspondence on stress runs",
+   design="§5 C15", engine="coq-model+go-overlay-harness (stress, -race)"),
 }
 
 def main():
